@@ -352,6 +352,24 @@ def check_pit_token(ctx, rng):
                         res['viol'].append((f'token-reply-wrong-token:len={len(token)}', f'envelope carries token {lp["pit_token"]!r}, expected {token!r}', w))
                     if lp['fragment'] != data:
                         res['viol'].append(('token-reply-modified', 'reply bytes inside the envelope differ from what the handler sent', w))
+                # a handler may answer one Interest with more than one Data (e.g. a CanBePrefix Interest): EVERY reply follows the same rule
+                if rng.random() < 0.3 and S.now_ms() <= t_arr + L:
+                    for extra in range(rng.randint(1, 2)):
+                        d2 = bytes(make_data(list(name) + [rc.comp(8, b'more%d' % extra)], MetaInfo(), b'again', DigestSha256Signer()))
+                        n1 = len(face.sent)
+                        reply(d2)
+                        sent2 = [b for t, b in face.sent[n1:]]
+                        ctx.event('token-second-reply')
+                        ok2 = len(sent2) == 1 and (sent2[0] == d2 if token is None else False)
+                        if len(sent2) == 1 and token is not None:
+                            try:
+                                lp2 = rc.strict_lp(sent2[0])
+                                ok2 = lp2['pit_token'] == token and lp2['fragment'] == d2
+                            except (rc.Reject, KeyError):
+                                ok2 = False
+                        if not ok2:
+                            res['viol'].append(('later-reply-breaks-token-rule', f'reply number {extra + 2} to one Interest was not sent like the first (token {"present" if token is not None else "absent"})',
+                                                dict(w, sent=sent2[:2])))
         lib_logger.setLevel(old_level)
         logging.disable(logging.CRITICAL)
         the_app.shutdown()
@@ -368,7 +386,7 @@ def run(ctx):
         check_transparency(ctx, rng, fe)
         check_nack(ctx, rng, fe)
     check_pit_token(ctx, rng)
-    for k in ('twin-delivery-with-effect', 'nack-delivered', 'token-reply', 'fragmented-envelope', 'nack-with-cancel-in-same-turn', 'token-round-debug-logging'):
+    for k in ('twin-delivery-with-effect', 'nack-delivered', 'token-reply', 'fragmented-envelope', 'nack-with-cancel-in-same-turn', 'token-round-debug-logging', 'token-second-reply'):
         ctx.need_event(k)
     ctx.need_class('reply-size->=2048')
     ctx.need_class('token-interest-signed')
